@@ -5,6 +5,7 @@ package filters
 // every width, converted by the real call layer.
 
 import (
+	"encoding/json"
 	"math"
 	"strconv"
 
@@ -253,7 +254,18 @@ func VerifC17Modulo() {
 
 // VerifC17Strings: a string that spells a number is accepted as the receiver; one that does not is an error.
 func VerifC17Strings() {
-	switch nd.Choice(6) {
+	switch nd.Choice(7) {
+	case 6:
+		// a json.Number (bindings decoded with UseNumber) is the float64 its text spells
+		for _, c := range []struct {
+			s    string
+			want float64
+		}{{"16777217", 16777217}, {"9007199254740991", 9007199254740991}, {"0.1", 0.1}, {"-2.5e3", -2500}} {
+			v, err := fEval("n | plus: 0", map[string]any{"n": json.Number(c.s)})
+			nd.Assert(err == nil && v.(float64) == c.want, "json-number-receiver")
+			v, err = fEval("1 | times: n", map[string]any{"n": json.Number(c.s)})
+			nd.Assert(err == nil && v.(float64) == c.want, "json-number-argument")
+		}
 	case 4:
 		// a string spells a number the way a decimal literal does: leading zeros are not octal, and
 		// base prefixes, digit separators and stray characters do not spell numbers
